@@ -39,9 +39,20 @@ fn stub_encode_eci(
 #[kani::unwind(10)]
 #[kani::stub(DataMatrixBuilder::encode_eci, stub_encode_eci)]
 fn str_dispatch() {
+    dispatch(kani::any());
+}
+
+/// The one-character strings alone (cheap; every control character is in here).
+#[kani::proof]
+#[kani::unwind(10)]
+#[kani::stub(DataMatrixBuilder::encode_eci, stub_encode_eci)]
+fn str_dispatch_1() {
+    dispatch(false);
+}
+
+fn dispatch(two: bool) {
     let c1: char = kani::any();
     let c2: char = kani::any();
-    let two: bool = kani::any();
     let mut buf = [0u8; 8];
     let n1 = c1.encode_utf8(&mut buf[..4]).len();
     let n2 = if two { c2.encode_utf8(&mut buf[n1..]).len() } else { 0 };
